@@ -233,12 +233,13 @@ class MemoWorld(World):
         elif target == 'index':
             self.cache = dc.Index(self.dir)
             self.w = self.cache.memoize(typed=typed, ignore=ign)(f)
-        elif target == 'django':
+        elif target in ('django', 'django-v2'):
             from .c19 import make_django, tmo
             self.cache = make_django(self.dir, {'TIMEOUT': 300})
+            extra = {'version': 2} if target == 'django-v2' else {}
             self.w = self.cache.memoize(
                 timeout=tmo('DEFAULT') if expire is None else expire,
-                typed=typed, ignore=ign)(f)
+                typed=typed, ignore=ign, **extra)(f)
         else:
             self.cache = dc.Cache(self.dir)
             self.w = dc.memoize_stampede(self.cache, expire=expire or 10,
@@ -320,9 +321,10 @@ class MemoWorld(World):
         if not problems and not same(got, want_result):
             problems.append(('wrong-result', 'call %r returned %r, the '
                              'function returns %r' % (op, got, want_result)))
-        if ttl == 0 and self.target in ('cache', 'fanout', 'django'):
-            n = len(self.cache) if self.target != 'django' else \
-                len(self.cache._cache)
+        if ttl == 0 and self.target in ('cache', 'fanout', 'django',
+                                        'django-v2'):
+            n = len(self.cache) if not self.target.startswith('django') \
+                else len(self.cache._cache)
             if n:
                 problems.append(('expire-zero-stored', 'expire=0 stored %d '
                                  'item(s)' % n))
@@ -369,13 +371,15 @@ def main(tier, seed):
                ('fanout', 1, False, ()), ('fanout', 0, True, ()),
                ('index', None, True, ()), ('django', None, False, ()),
                ('django', 1, True, ('a',)), ('django', 0, False, ()),
-               ('stampede', 2, False, ())]
+               ('django-v2', None, False, ()), ('django-v2', 1, True, ()),
+               ('stampede', 2, False, ()), ('stampede', 2, True, ('a',))]
     for target, expire, typed, ignore in configs:
         rnds = (None,) if target != 'stampede' else (1.0, 1e-300)
         for rnd in rnds:
+            d = max(depth, 3) if target == 'stampede' else depth
             for ch in range(2):
                 units.append(('bfs', target, expire, typed, ignore, rnd,
-                              depth, seed, cap, ch, 2))
+                              d, seed, cap, ch, 2))
     units = run.shuffled(units, seed)
     for part in run.pmap(work, units):
         rep.merge(part, part.get('label'))
